@@ -192,6 +192,38 @@ MUTANTS = [
     ('c18-consume-does-not-reset', 'malt/pyct/common_transformers/anf.py', '''    ans = self._pending_statements
     self._pending_statements = []''', '''    ans = list(self._pending_statements)''',
      ['malt.pyct.common_transformers.anf.AnfTransformer._consume_pending_statements']),
+    ('c08-isolated-exports-all-reads', 'malt/pyct/static_analysis/activity.py',
+     '        self.parent.read.update(self.read - self.bound)', '        self.parent.read.update(self.read)',
+     ['malt.pyct.static_analysis.activity.Scope.finalize']),
+    ('c08-block-forgets-modified', 'malt/pyct/static_analysis/activity.py',
+     '        self.parent.modified.update(self.modified - self.isolated_names)\n', '',
+     ['malt.pyct.static_analysis.activity.Scope.finalize']),
+    ('c08-isolated-leaks-bound', 'malt/pyct/static_analysis/activity.py', '''      else:
+        # TODO(mdan): This is not accurate.
+        self.parent.read.update(self.read - self.bound)''', '''      else:
+        # TODO(mdan): This is not accurate.
+        self.parent.bound.update(self.bound)
+        self.parent.read.update(self.read - self.bound)''', ['malt.pyct.static_analysis.activity.Scope.finalize']),
+    ('c11-referenced-drops-bound', 'malt/pyct/static_analysis/activity.py',
+     'return self.read | self.bound | self.parent.referenced', 'return self.read | self.parent.referenced',
+     ['malt.pyct.static_analysis.activity.Scope.referenced']),
+    ('c08-free-vars-includes-bound', 'malt/pyct/static_analysis/activity.py',
+     'return enclosing_scope.read - enclosing_scope.bound', 'return enclosing_scope.read',
+     ['malt.pyct.static_analysis.activity.Scope.free_vars']),
+    ('c08-del-not-recorded-as-deleted', 'malt/pyct/static_analysis/activity.py', '      self.scope.deleted.add(qn)\n', '',
+     ['malt.pyct.static_analysis.activity.ActivityAnalyzer._track_symbol']),
+    ('c08-augassign-not-a-read', 'malt/pyct/static_analysis/activity.py', '''      if self._in_aug_assign:
+        self.scope.read.add(qn)''', '''      if self._in_aug_assign:
+        pass''', ['malt.pyct.static_analysis.activity.ActivityAnalyzer._track_symbol']),
+    ('c08-store-not-bound', 'malt/pyct/static_analysis/activity.py', '''      self.scope.modified.add(qn)
+      self.scope.bound.add(qn)''', '''      self.scope.modified.add(qn)''',
+     ['malt.pyct.static_analysis.activity.ActivityAnalyzer._track_symbol']),
+    ('c08-exit-scope-skips-finalize', 'malt/pyct/static_analysis/activity.py', '    exited_scope.finalize()\n', '',
+     ['malt.pyct.static_analysis.activity.ActivityAnalyzer._exit_scope']),
+    ('c08-enter-scope-always-isolated', 'malt/pyct/static_analysis/activity.py',
+     'self.scope = Scope(self.scope, isolated=isolated, function_name=f_name)',
+     'self.scope = Scope(self.scope, isolated=True, function_name=f_name)',
+     ['malt.pyct.static_analysis.activity.ActivityAnalyzer._enter_scope']),
     ('c10-has-ignores-subkey', 'malt/pyct/cache.py', '    return subkey in parent', '    return True',
      ['malt.pyct.cache._TransformedFnCache.has']),
 ]
